@@ -46,7 +46,7 @@ def run(item):
     finally:
         shutil.rmtree(d, ignore_errors=True)
 res = {'SILENT': 0, 'ALARM': 0, 'NOBUILD': 0}
-with concurrent.futures.ThreadPoolExecutor(max_workers=3) as ex:
+with concurrent.futures.ThreadPoolExecutor(max_workers=10) as ex:
     for full, st, info in ex.map(run, items):
         res[st] += 1
         if st != 'SILENT': print(st, full, info, flush=True)
